@@ -419,7 +419,7 @@ func (modComp) Exec(c *wire.Case, w *wire.Writer) {
 			}
 			w.Ob(wire.R("list").I("t", id).Is("uids", uids).Is("names", names).Is("srcs", srcs).Is("durs", durs).Is("counts", counts).
 				Is("maxs", maxs).Is("renew", renew).Is("cadds", cadds).Ss("imms", imms).Ss("p2", p2).S("stats", strings.Join(stats, ";")).
-				F("atkpct", st.GetProperty(prop.ATKPercent)).F("reduce", st.GetProperty(prop.AllDamageReduce)).F("atk", st.ATK()).F("cc", st.GetProperty(prop.CritChance)).
+				F("atkpct", st.GetProperty(prop.ATKPercent)).F("reduce", st.GetProperty(prop.AllDamageReduce)).F("atk", st.ATK()).F("spd", st.SPD()).F("cc", st.GetProperty(prop.CritChance)).
 				S("weaks", strings.Join(weaks, ";")).Is("weak", weakTo))
 		}
 	}
@@ -495,6 +495,10 @@ func (modComp) Gen(r *rand.Rand, tier string, n int) []*wire.Case {
 	negpct := fmt.Sprintf("%d:%s", int(prop.ATKPercent), wire.FStr(-1.5))
 	flat := fmt.Sprintf("%d:%s", int(prop.ATKFlat), wire.FStr(150))
 	negflat := fmt.Sprintf("%d:%s", int(prop.ATKFlat), wire.FStr(-2000))
+	// converted parts (a separate addend of the flat part) and speed
+	conv := fmt.Sprintf("%d:%s", int(prop.ATKConvert), wire.FStr(64))
+	spd := fmt.Sprintf("%d:%s|%d:%s", int(prop.SPDPercent), wire.FStr(0.25), int(prop.SPDFlat), wire.FStr(12))
+	spdconv := fmt.Sprintf("%d:%s|%d:%s", int(prop.SPDConvert), wire.FStr(8), int(prop.SPDPercent), wire.FStr(-1.5))
 	// directed
 	for s := 0; s < 7; s++ {
 		mk(fmt.Sprintf("d-stack-%d", s), add(1, s, 1, 0, 0, ""), add(1, s, 1, 0, 0, ""), add(1, s, 2, 4, 2, ""), add(1, s, 1, 1, 0, ""), add(2, s, 1, 0, 0, ""))
@@ -522,6 +526,7 @@ func (modComp) Gen(r *rand.Rand, tier string, n int) []*wire.Case {
 		wire.R("mutsnap").I("t", 1).I("p", int(prop.ATKPercent)).F("x", 5), wire.R("rm").I("t", 1).I("name", 19))
 	mk("d-weakness-union", add(1, 3, 1, 0, 0, "").S("weak", "4:1"), add(1, 10, 1, 0, 0, "").S("weak", "4:0|5:1"), add(2, 3, 1, 0, 0, "").S("weak", "6:1"), add(2, 10, 1, 0, 0, "").S("weak", "2:0"),
 		add(3, 3, 1, 0, 0, "").S("weak", "2:0|3:1"), add(3, 10, 1, 0, 0, "").S("weak", "2:1"), wire.R("rm").I("t", 1).I("name", 3), wire.R("rm").I("t", 3).I("name", 10))
+	mk("d-stat-parts", add(1, 3, 1, 0, 0, conv), add(1, 10, 1, 0, 0, flat), add(2, 3, 1, 0, 0, spd), add(2, 10, 1, 0, 0, spdconv), add(3, 3, 1, 0, 0, spdconv), wire.R("rm").I("t", 2).I("name", 3))
 	mk("d-stat-clamp", add(1, 3, 1, 0, 0, negpct), add(1, 10, 1, 0, 0, flat), add(2, 3, 1, 0, 0, negflat), add(2, 10, 1, 0, 0, flat), add(3, 3, 1, 0, 0, negpct+"|"+flat), wire.R("rm").I("t", 1).I("name", 3))
 	mk("d-shared-empty-desc", add(1, 3, 1, 0, 0, "").S("share", "e"), add(2, 3, 1, 0, 0, "").S("share", "e"), wire.R("instprop").I("t", 1).I("uid", 1).I("p", int(prop.ATKPercent)).F("x", 0.5),
 		add(3, 3, 1, 0, 0, "").S("share", "e"), wire.R("instprop").I("t", 3).I("uid", 3).I("p", int(prop.AllDamageReduce)).F("x", 0.1), add(2, 10, 1, 0, 0, "").S("share", "e"))
@@ -543,7 +548,7 @@ func (modComp) Gen(r *rand.Rand, tier string, n int) []*wire.Case {
 			case 0, 1, 2, 3, 4, 5:
 				st := ""
 				if r.Intn(3) == 0 {
-					st = pick(r, atk, red, atk+"|"+red, atk, red, negpct, flat, negpct+"|"+flat, negflat, flat+"|"+red)
+					st = pick(r, atk, red, atk+"|"+red, atk, red, negpct, flat, negpct+"|"+flat, negflat, flat+"|"+red, conv, conv+"|"+flat, spd, spdconv, spd+"|"+conv)
 				}
 				op := add(t, name, pick(r, 1, 2, 3), pick(r, 0, 0, 1, 2, 3), pick(r, 0, 0, 1, 2), st)
 				if r.Intn(4) == 0 {
